@@ -88,7 +88,9 @@ func (vc *VC) instr(fr *Frame, st *State, ins ssa.Instruction) {
 	case *ssa.Alloc:
 		et := t.Type().Underlying().(*types.Pointer).Elem()
 		p := vc.allocObj(st, et, fr.prefix+"_"+t.Name())
-		if !t.Heap {
+		if !t.Heap || writeOnceCell(t, 0) {
+			// (a variable that escapes only into closures that read it, written once before they exist, cannot be
+			// changed by any call either)
 			fr.localRoots = append(fr.localRoots, Root(p))
 		}
 		fr.vals[t] = p
